@@ -91,6 +91,24 @@ def restoreLoop (f : Nat) : Rbk → List (Option HsmState × Option Bool) → Rb
     | (b', .wait) => restoreLoop f b' rest
     | (b', r) => (b', some r)
 
+/-! ### the two tasks built on the loop -/
+
+/-- the `ready_pull` task (offering a file as a transfer source): when the loop ends, the copy's ready flag becomes
+    "the loop ended with the file resident"; `none` = the task is still waiting when the answers run out -/
+def readyPullTask (f : Nat) (b : Rbk) (answers : List (Option HsmState × Option Bool)) : Rbk × Option Bool :=
+  match restoreLoop f b answers with
+  | (b', none) => (b', none)
+  | (b', some r) => (b', some (r == .ready))
+
+/-- the `check` task on an HSM node: first answer MISSING (file gone) records the copy absent without hashing; otherwise
+    the loop runs and the file is opened and hashed only if the loop ended `ready`; returns (bookkeeping, hashed?) -/
+def hsmCheckTask (f : Nat) (b : Rbk) (existsAnswer : Option HsmState) (answers : List (Option HsmState × Option Bool)) :
+    Rbk × Bool :=
+  if existsAnswer = some .missing then (b, false)
+  else match restoreLoop f b answers with
+    | (b', some .ready) => (b', true)
+    | (b', _) => (b', false)
+
 /-! ### release selection (`release_files`) -/
 
 structure RCopy where
